@@ -164,7 +164,7 @@ def gen_ops(rng, has_doc, oneline, cur_name, stats, is_lambda=False, text=""):
         k = rng.random()
         if k < 0.4:
             nn = rng.choice([n for n in G.NEWNAMES if n != cur_name])
-            ops.append({"op": "rename", "name": nn})
+            ops.append({"op": "rename", "name": nn, "bystanders": rng.random() < 0.5})
             cur_name = nn
         elif k < 0.9:
             d = rng.choice(G.SAFE_DOCS + G.UNSAFE_DOCS[:2]) if rng.random() < 0.9 else rng.choice(G.UNSAFE_DOCS)
@@ -491,6 +491,20 @@ def analyse(case, res, terms, out):
             if snap["name"] != new or not st.get("in_space"):
                 pf("rename to %r: name %r in_space %r" % (new, snap["name"], st.get("in_space")))
             behaviour(snap, "renamed")
+            by = st.get("bystanders")
+            if by:
+                # the overriding cells of a sub space keeps its own definition under the new name, the plainly
+                # derived one shows the base's
+                if by["own_before"] != by["own_text"]:
+                    pf("an overriding formula was not stored as given: %r" % by["own_before"])
+                want = by["own_text"].replace("def %s(" % by["old"], "def %s(" % new, 1)
+                if by["own_after"] != want or not by["own_defined"] or by["own_value"] != "('own', 3)" or by["own_doc"] != "own doc":
+                    pf("rename of the base cells changed the overriding cells of a sub space: source %r (wanted %r) defined %r value %r doc %r"
+                       % (by["own_after"], want, by["own_defined"], by["own_value"], by["own_doc"]))
+                if by["plain_after"] != snap["source"] or not by["plain_derived"]:
+                    pf("after the rename the plainly derived cells shows %r, the base %r" % (by["plain_after"], snap["source"]))
+                if by["names"] != [[new], [new]] and len(by["names"][0]) == 1:
+                    pf("cells of the sub spaces after the rename: %r" % (by["names"],))
             if snap.get("doc") != cur_doc:
                 pf("rename changed doc: %r -> %r" % (cur_doc, snap.get("doc")))
             after = snap["source"]
